@@ -31,6 +31,7 @@ import (
 	dragonboat "github.com/lni/dragonboat/v4"
 	"github.com/lni/dragonboat/v4/config"
 	"github.com/lni/dragonboat/v4/logger"
+	"github.com/lni/dragonboat/v4/client"
 	chantrans "github.com/lni/dragonboat/v4/plugin/chan"
 	"github.com/lni/dragonboat/v4/raftio"
 	sm "github.com/lni/dragonboat/v4/statemachine"
@@ -82,6 +83,7 @@ type recorder struct {
 	lingerEntered chan struct{}
 	delay        time.Duration // randomised delay inside methods (thorough)
 	rnd          *vh.Rand
+	lag          bool      // see liveCase.lag
 	logf         *os.File  // every event is appended at once: the log survives a crash of the library
 	disk0        diskState // the "disk" of shard 1's on-disk state machine (survives restarts)
 	cur          uint64    // incarnation of shard 1's current state machine
@@ -159,13 +161,17 @@ func (r *recorder) curInc() uint64 {
 	return r.cur
 }
 
-func (r *recorder) sawExit(meth string) int {
+func (r *recorder) sawExit(meth string, incs []uint64) int {
 	r.mu.Lock()
 	defer r.mu.Unlock()
 	n := 0
 	for _, e := range r.events {
 		if e.kind == 'X' && e.meth == meth {
-			n++
+			for _, i := range incs {
+				if i == e.inc {
+					n++
+				}
+			}
 		}
 	}
 	return n
@@ -272,6 +278,13 @@ const blockQuery = "block"
 
 // core is the state shared by the three instrumented kinds.
 type core struct {
+	// excl is deliberately accessed without synchronisation: written by the methods the library
+	// promises never to overlap (Update, Sync, PrepareSnapshot, RecoverFromSnapshot, Close) and,
+	// for the plain kind, read by Lookup / NALookup / SaveSnapshot. Under a -race build
+	// (thorough tier) any breach of the threading contract is a reported data race even when
+	// the two calls are too short for the call log to show them overlapping.
+	excl    uint64
+	plain   bool
 	r       *recorder
 	inc     uint64
 	applied uint64 // highest entry index handed to Update
@@ -287,6 +300,7 @@ func payloadOf(cmd []byte) uint64 {
 
 func (c *core) lookup(q interface{}) (interface{}, error) {
 	c.r.enter(c.inc, "Lookup", nil)
+	c.rd()
 	if s, ok := q.(string); ok && s == blockQuery {
 		rel := c.r.releaseChan()
 		select {
@@ -305,6 +319,7 @@ func (c *core) lookup(q interface{}) (interface{}, error) {
 
 func (c *core) close() error {
 	c.r.enter(c.inc, "Close", nil)
+	c.excl++
 	// a real Close releases resources and takes time
 	if atomic.CompareAndSwapInt32(&c.r.holdClose, 1, 0) {
 		c.r.closeEntered <- struct{}{}
@@ -337,6 +352,12 @@ func (c *core) linger(flag *int32, done <-chan struct{}) bool {
 	}
 	time.Sleep(40 * time.Millisecond)
 	return stopped
+}
+
+func (c *core) rd() {
+	if c.plain && c.excl == ^uint64(0) {
+		panic("unreachable")
+	}
 }
 
 func (c *core) dwell(ns *int64) {
@@ -372,6 +393,7 @@ func (c *core) updDwell() {
 // NALookup is the optional statemachine.IExtended read path
 func (c *core) NALookup(q []byte) ([]byte, error) {
 	c.r.enter(c.inc, "NALookup", nil)
+	c.rd()
 	v := atomic.LoadUint64(&c.count)
 	c.r.exit(c.inc, "NALookup", 0)
 	b := make([]byte, 8)
@@ -400,6 +422,7 @@ type plainSM struct{ core }
 
 func (s *plainSM) Update(e sm.Entry) (sm.Result, error) {
 	s.r.enter(s.inc, "Update", [][2]uint64{{e.Index, payloadOf(e.Cmd)}})
+	s.excl++
 	s.updDwell()
 	s.applied = e.Index
 	atomic.AddUint64(&s.count, 1)
@@ -409,6 +432,7 @@ func (s *plainSM) Update(e sm.Entry) (sm.Result, error) {
 func (s *plainSM) Lookup(q interface{}) (interface{}, error) { return s.lookup(q) }
 func (s *plainSM) SaveSnapshot(w io.Writer, _ sm.ISnapshotFileCollection, done <-chan struct{}) error {
 	s.r.enter(s.inc, "SaveSnapshot", nil)
+	s.rd()
 	err := writeSnap(w, s.applied, atomic.LoadUint64(&s.count))
 	if s.linger(&s.r.lingerSave, done) && err == nil {
 		err = sm.ErrSnapshotStopped
@@ -418,6 +442,7 @@ func (s *plainSM) SaveSnapshot(w io.Writer, _ sm.ISnapshotFileCollection, done <
 }
 func (s *plainSM) RecoverFromSnapshot(r io.Reader, _ []sm.SnapshotFile, done <-chan struct{}) error {
 	s.r.enter(s.inc, "RecoverFromSnapshot", nil)
+	s.excl++
 	s.dwell(&s.r.dwellRecover)
 	a, c, err := readSnap(r)
 	if s.linger(&s.r.lingerRecover, done) && err == nil {
@@ -444,6 +469,7 @@ func (s *concSM) Update(es []sm.Entry) ([]sm.Entry, error) {
 		ents[i] = [2]uint64{e.Index, payloadOf(e.Cmd)}
 	}
 	s.r.enter(s.inc, "Update", ents)
+	s.excl++
 	s.updDwell()
 	s.mu.Lock()
 	for i := range es {
@@ -458,6 +484,7 @@ func (s *concSM) Update(es []sm.Entry) ([]sm.Entry, error) {
 func (s *concSM) Lookup(q interface{}) (interface{}, error) { return s.lookup(q) }
 func (s *concSM) PrepareSnapshot() (interface{}, error) {
 	s.r.enter(s.inc, "PrepareSnapshot", nil)
+	s.excl++
 	s.dwell(&s.r.dwellPrepare)
 	s.mu.Lock()
 	ctx := [2]uint64{s.applied, atomic.LoadUint64(&s.count)}
@@ -467,6 +494,7 @@ func (s *concSM) PrepareSnapshot() (interface{}, error) {
 }
 func (s *concSM) SaveSnapshot(ctx interface{}, w io.Writer, _ sm.ISnapshotFileCollection, done <-chan struct{}) error {
 	s.r.enter(s.inc, "SaveSnapshot", nil)
+	s.rd()
 	c := ctx.([2]uint64)
 	err := writeSnap(w, c[0], c[1])
 	if s.linger(&s.r.lingerSave, done) && err == nil {
@@ -477,6 +505,7 @@ func (s *concSM) SaveSnapshot(ctx interface{}, w io.Writer, _ sm.ISnapshotFileCo
 }
 func (s *concSM) RecoverFromSnapshot(r io.Reader, _ []sm.SnapshotFile, done <-chan struct{}) error {
 	s.r.enter(s.inc, "RecoverFromSnapshot", nil)
+	s.excl++
 	s.dwell(&s.r.dwellRecover)
 	a, c, err := readSnap(r)
 	if s.linger(&s.r.lingerRecover, done) && err == nil {
@@ -516,14 +545,18 @@ func (s *diskSM) Update(es []sm.Entry) ([]sm.Entry, error) {
 		ents[i] = [2]uint64{e.Index, payloadOf(e.Cmd)}
 	}
 	s.r.enter(s.inc, "Update", ents)
+	s.excl++
 	s.updDwell()
 	s.mu.Lock()
 	for i := range es {
 		s.applied = es[i].Index
 		n := atomic.AddUint64(&s.count, 1)
-		// every update is durable at once (a legal, if slow, on-disk state machine)
-		atomic.StoreUint64(&s.ds.applied, s.applied)
-		atomic.StoreUint64(&s.ds.count, n)
+		// durable at once, or (lag) only now and then: Open then returns an index below the
+		// last applied one and the entries after it are delivered again
+		if !s.r.lag || s.applied%3 == 0 {
+			atomic.StoreUint64(&s.ds.applied, s.applied)
+			atomic.StoreUint64(&s.ds.count, n)
+		}
 		es[i].Result = sm.Result{Value: es[i].Index}
 	}
 	s.mu.Unlock()
@@ -533,12 +566,18 @@ func (s *diskSM) Update(es []sm.Entry) ([]sm.Entry, error) {
 func (s *diskSM) Lookup(q interface{}) (interface{}, error) { return s.lookup(q) }
 func (s *diskSM) Sync() error {
 	s.r.enter(s.inc, "Sync", nil)
+	s.excl++
 	s.dwell(&s.r.dwellSync)
+	s.mu.Lock()
+	atomic.StoreUint64(&s.ds.applied, s.applied)
+	atomic.StoreUint64(&s.ds.count, atomic.LoadUint64(&s.count))
+	s.mu.Unlock()
 	s.r.exit(s.inc, "Sync", 0)
 	return nil
 }
 func (s *diskSM) PrepareSnapshot() (interface{}, error) {
 	s.r.enter(s.inc, "PrepareSnapshot", nil)
+	s.excl++
 	s.dwell(&s.r.dwellPrepare)
 	s.mu.Lock()
 	ctx := [2]uint64{s.applied, atomic.LoadUint64(&s.count)}
@@ -548,6 +587,7 @@ func (s *diskSM) PrepareSnapshot() (interface{}, error) {
 }
 func (s *diskSM) SaveSnapshot(ctx interface{}, w io.Writer, done <-chan struct{}) error {
 	s.r.enter(s.inc, "SaveSnapshot", nil)
+	s.rd()
 	c := ctx.([2]uint64)
 	err := writeSnap(w, c[0], c[1])
 	if s.linger(&s.r.lingerSave, done) && err == nil {
@@ -558,6 +598,7 @@ func (s *diskSM) SaveSnapshot(ctx interface{}, w io.Writer, done <-chan struct{}
 }
 func (s *diskSM) RecoverFromSnapshot(r io.Reader, done <-chan struct{}) error {
 	s.r.enter(s.inc, "RecoverFromSnapshot", nil)
+	s.excl++
 	s.dwell(&s.r.dwellRecover)
 	a, c, err := readSnap(r)
 	if s.linger(&s.r.lingerRecover, done) && err == nil {
@@ -609,6 +650,9 @@ func (chanFactory) Validate(string) bool { return true }
 
 type liveCase struct {
 	snapw             uint64 // Expert.Engine.SnapshotShards
+	ecomp, scomp      bool   // config.Config.EntryCompressionType / SnapshotCompressionType = Snappy
+	lag               bool   // on-disk state machine: updates become durable only now and then and at Sync
+	sess              bool   // proposals of the main client go through a registered client session
 	id, kind, logPath string
 	seed              uint64
 	ops               []string
@@ -631,6 +675,8 @@ type live struct {
 	started bool
 	payload uint64
 	hostClosed bool
+	session    *client.Session
+	nhc        config.NodeHostConfig
 	bUsed, s2Used, seUsed, instUsed bool
 	dir     string
 	fs      gvfs.FS
@@ -645,6 +691,7 @@ func (l *live) start() error { return l.startW(true) }
 func (l *live) startW(waitReady bool) error {
 	rc := config.Config{ReplicaID: 1, ShardID: shardID, ElectionRTT: 5, HeartbeatRTT: 1, CheckQuorum: true,
 		SnapshotEntries: 0, CompactionOverhead: 2, WaitReady: waitReady}
+	l.dims(&rc)
 	members := map[uint64]dragonboat.Target{1: l.nh.RaftAddress()}
 	if l.started {
 		members = map[uint64]dragonboat.Target{}
@@ -653,7 +700,7 @@ func (l *live) startW(waitReady bool) error {
 	switch l.c.kind {
 	case "plain":
 		err = l.nh.StartReplica(members, false, func(uint64, uint64) sm.IStateMachine {
-			return &plainSM{core{r: l.r, inc: l.r.newCur()}}
+			return &plainSM{core{r: l.r, inc: l.r.newCur(), plain: true}}
 		}, rc)
 	case "conc":
 		err = l.nh.StartConcurrentReplica(members, false, func(uint64, uint64) sm.IConcurrentStateMachine {
@@ -667,7 +714,55 @@ func (l *live) startW(waitReady bool) error {
 	if err == nil {
 		l.running, l.started = true, true
 	}
+	l.session = nil
+	if err == nil && waitReady && l.c.sess && l.c.kind != "disk" {
+		for try := 0; try < 60 && l.session == nil; try++ {
+			ctx, cancel := context.WithTimeout(context.Background(), 500*time.Millisecond)
+			if cs, e := l.nh.SyncGetSession(ctx, shardID); e == nil {
+				l.session = cs
+			} else {
+				time.Sleep(5 * time.Millisecond)
+			}
+			cancel()
+		}
+		if l.session == nil {
+			l.st.Count("session-error")
+		}
+	}
 	return err
+}
+
+// dims applies the case's configuration dimensions to a replica config
+func (l *live) dims(rc *config.Config) {
+	if l.c.ecomp {
+		rc.EntryCompressionType = config.Snappy
+	}
+	if l.c.scomp {
+		rc.SnapshotCompressionType = config.Snappy
+	}
+}
+
+// proposeS: the main client's proposal, through its registered session when there is one
+func (l *live) proposeS() bool {
+	cs := l.session
+	if cs == nil {
+		return l.propose()
+	}
+	p := atomic.AddUint64(&l.payload, 1)
+	cmd := make([]byte, 8)
+	binary.LittleEndian.PutUint64(cmd, p)
+	ctx, cancel := context.WithTimeout(context.Background(), time.Second)
+	_, err := l.nh.SyncPropose(ctx, cs, cmd)
+	cancel()
+	if err == nil {
+		cs.ProposalCompleted()
+		l.r.ack(l.r.curInc(), p)
+		l.st.Count("session-proposal")
+		return true
+	}
+	// the outcome is unknown: the session cannot be used any more
+	l.session = nil
+	return false
 }
 
 func (l *live) propose() bool { return l.proposeTo(shardID, 0) }
@@ -717,10 +812,11 @@ func (l *live) run() {
 		panic(err)
 	}
 	l.nh = nh
+	l.nhc = nhc
 	l.dir, l.fs = dir, fs
 	for _, op := range l.c.ops {
 		f := strings.Fields(op)
-		if len(f) == 0 || l.hostClosed {
+		if len(f) == 0 || (l.hostClosed && f[0] != "REOPEN") {
 			continue
 		}
 		l.st.Count("op:" + f[0])
@@ -753,9 +849,21 @@ func (l *live) run() {
 					time.Sleep(time.Duration(n) * time.Millisecond)
 				}
 			}
+		case "REOPEN": // NodeHost.Close, then a new NodeHost over the same directory and file system
+			if !l.hostClosed {
+				l.closeHost()
+			}
+			if nh2, err := dragonboat.NewNodeHost(l.nhc); err == nil {
+				l.nh = nh2
+				l.hostClosed = false
+				l.running = false
+				l.session = nil
+			} else {
+				l.st.Count("reopen-error")
+			}
 		case "P":
 			for i := 0; i < n && l.running; i++ {
-				l.propose()
+				l.proposeS()
 			}
 		case "R":
 			if l.running {
@@ -1015,13 +1123,14 @@ func (l *live) pendStop() {
 	const shardB = 2
 	var incB uint64
 	rc := config.Config{ReplicaID: 1, ShardID: shardB, ElectionRTT: 5, HeartbeatRTT: 1, CheckQuorum: true, WaitReady: true}
+	l.dims(&rc)
 	members := map[uint64]dragonboat.Target{1: l.nh.RaftAddress()}
 	var err error
 	switch l.c.kind {
 	case "plain":
 		err = l.nh.StartReplica(members, false, func(uint64, uint64) sm.IStateMachine {
 			incB = l.r.newInc()
-			return &plainSM{core{r: l.r, inc: incB}}
+			return &plainSM{core{r: l.r, inc: incB, plain: true}}
 		}, rc)
 	case "conc":
 		err = l.nh.StartConcurrentReplica(members, false, func(uint64, uint64) sm.IConcurrentStateMachine {
@@ -1111,7 +1220,7 @@ func (l *live) streamTo(rids []uint64, export bool) {
 		time.Sleep(3 * time.Millisecond)
 	}
 	atomic.StoreInt64(&l.r.dwellPrepare, int64(200*time.Millisecond))
-	rf := newRecorder(l.c.seed + 7)
+	var fincs []uint64 // the followers are further incarnations of the same replicated log
 	var hosts []*dragonboat.NodeHost
 	base := l.nh.RaftAddress()
 	for len(l.r.prepEntered) > 0 {
@@ -1140,8 +1249,11 @@ func (l *live) streamTo(rids []uint64, export bool) {
 		rid := rids[i]
 		rc := config.Config{ReplicaID: rid, ShardID: shardID, ElectionRTT: 5, HeartbeatRTT: 1, CheckQuorum: true,
 			IsNonVoting: true, CompactionOverhead: 2}
+	l.dims(&rc)
 		if err := nh.StartOnDiskReplica(nil, true, func(uint64, uint64) sm.IOnDiskStateMachine {
-			return &diskSM{core: core{r: rf, inc: rf.newInc()}, ds: &diskState{}}
+			inc := l.r.newInc()
+			fincs = append(fincs, inc)
+			return &diskSM{core: core{r: l.r, inc: inc}, ds: &diskState{}}
 		}, rc); err != nil {
 			l.st.Count("start-error")
 		}
@@ -1157,10 +1269,10 @@ func (l *live) streamTo(rids []uint64, export bool) {
 		l.export()
 	}
 	t0 := time.Now()
-	for time.Since(t0) < 3*time.Second && rf.sawExit("RecoverFromSnapshot") < len(hosts) {
+	for time.Since(t0) < 3*time.Second && l.r.sawExit("RecoverFromSnapshot", fincs) < len(hosts) {
 		time.Sleep(5 * time.Millisecond)
 	}
-	l.st.Count(fmt.Sprintf("stream%d-recovered:%d", len(rids), rf.sawExit("RecoverFromSnapshot")))
+	l.st.Count(fmt.Sprintf("stream%d-recovered:%d", len(rids), l.r.sawExit("RecoverFromSnapshot", fincs)))
 	atomic.StoreInt64(&l.r.dwellPrepare, 0)
 	for _, nh := range hosts {
 		done := make(chan struct{})
@@ -1216,11 +1328,12 @@ func (l *live) install() {
 	var incF uint64
 	rc := config.Config{ReplicaID: rid, ShardID: shardID, ElectionRTT: 5, HeartbeatRTT: 1, CheckQuorum: true,
 		IsNonVoting: true, CompactionOverhead: 2}
+	l.dims(&rc)
 	switch l.c.kind {
 	case "plain":
 		err = nhF.StartReplica(nil, true, func(uint64, uint64) sm.IStateMachine {
 			incF = l.r.newInc()
-			return &plainSM{core{r: l.r, inc: incF}}
+			return &plainSM{core{r: l.r, inc: incF, plain: true}}
 		}, rc)
 	case "conc":
 		err = nhF.StartConcurrentReplica(nil, true, func(uint64, uint64) sm.IConcurrentStateMachine {
@@ -1435,15 +1548,54 @@ func genLive(r *vh.Rand, id string, outDir string, tier string) string {
 	case 3:
 		ops = append(ops, "CLOSEHOST R")
 	}
-	return fmt.Sprintf("%s live kind=%s snapw=%d seed=%d log=%s | %s", id, kind, snapw, r.U64()%1000000,
-		filepath.Join(outDir, "logs", id+".log"), strings.Join(ops, " ; "))
+	if r.Intn(8) == 0 {
+		ops = append(ops, "REOPEN", "START", "P 1")
+	}
+	return caseLine(r, id, kind, snapw, outDir, ops)
+}
+
+// caseLine adds the configuration dimensions (entry / snapshot compression, durability lag of
+// the on-disk state machine, registered client session) and renders the case
+func caseLine(r *vh.Rand, id, kind string, snapw int, outDir string, ops []string) string {
+	b := func() int { return r.Intn(2) }
+	return fmt.Sprintf("%s live kind=%s snapw=%d ecomp=%d scomp=%d lag=%d sess=%d seed=%d log=%s | %s", id, kind, snapw,
+		b(), b(), b(), b(), r.U64()%1000000, filepath.Join(outDir, "logs", id+".log"), strings.Join(ops, " ; "))
+}
+
+// genMatrix: every racing operation for every kind of state machine, in every run
+func genMatrix(r *vh.Rand, w *vh.LineWriter, seed uint64, outDir string) {
+	type mop struct {
+		op    string
+		snapw int
+		kinds []string
+	}
+	all := []string{"plain", "conc", "disk"}
+	mops := []mop{{"SYNCX", 2, all}, {"CLOSEHOST S", 2, all}, {"CLOSEHOST R", 2, all}, {"PENDSTOP", 1, all},
+		{"INSTALL", 2, all}, {"SNAPRACE 3", 2, all}, {"NAR", 2, all}, {"LR ; START", 2, all}, {"REOPEN ; START", 2, all},
+		{"STREAM2", 2, []string{"disk"}}, {"STREAMEXP", 2, []string{"disk"}}}
+	n := 0
+	for _, m := range mops {
+		for _, k := range m.kinds {
+			ops := []string{"START", fmt.Sprintf("P %d", 1+r.Intn(3))}
+			if r.Intn(2) == 0 {
+				ops = append(ops, "SNAP", fmt.Sprintf("P %d", 1+r.Intn(2)))
+			}
+			ops = append(ops, strings.Split(m.op, " ; ")...)
+			ops = append(ops, "P 1")
+			if r.Intn(3) == 0 {
+				ops = append(ops, "STOP", "START", "P 1")
+			}
+			w.Printf("%s\n", caseLine(r, fmt.Sprintf("M%d_%d", seed, n), k, m.snapw, outDir, ops))
+			n++
+		}
+	}
 }
 
 func main() {
 	a := vh.ParseArgs()
 	switch a.Mode {
 	case "gen":
-		n := 24
+		n := 14
 		if a.Tier == "thorough" {
 			n = 300
 		}
@@ -1455,6 +1607,19 @@ func main() {
 		w := vh.Create(a.Cases)
 		for i := 0; i < n; i++ {
 			w.Printf("%s\n", genLive(r, fmt.Sprintf("L%d_%d", a.Seed, i), out, a.Tier))
+		}
+		reps := 1
+		if a.Tier == "thorough" {
+			reps = 8
+		}
+		if a.N > 0 {
+			reps = 0 // the search phase asks for plain random cases
+			if a.N >= 20 {
+				reps = 1
+			}
+		}
+		for k := 0; k < reps; k++ {
+			genMatrix(r, w, a.Seed*100+uint64(k), out)
 		}
 		genApply(r, w, a)
 		w.Close()
@@ -1480,15 +1645,80 @@ func runParent(a vh.Args) {
 	_ = os.MkdirAll(out, 0755)
 	_ = os.WriteFile(filepath.Join(out, "dragonboat-soft-settings.json"), []byte(`{"SyncTaskInterval": 20}`), 0644)
 	exe, _ := os.Executable()
-	st := vh.NewStats("live cases in which at least two user-state-machine calls of different goroutines were in progress at the same time or a stop/restart/close happened")
+	liveExe, raceDir := exe, ""
+	if a.Tier == "thorough" || os.Getenv("C11_RACE") != "" {
+		// bin/check builds with CGO disabled; the race detector needs it: the live cases run in a
+		// binary of this same package built here with -race
+		if rexe, err := buildRaceExe(exe); err == nil {
+			liveExe = rexe
+			raceDir = filepath.Join(out, "race")
+			_ = os.MkdirAll(raceDir, 0755)
+		} else {
+			fmt.Fprintln(os.Stderr, "c11: no -race build:", err)
+		}
+	}
+	st := vh.NewStats("live cases in which at least two user-state-machine calls of different goroutines were in progress at the same time or a stop/restart/close happened; apply cases with a dropped/non-update entry, a panic class, or an Open index above the applied index")
 	lines := vh.ReadLines(cases)
 	results := make([]string, len(lines))
 	var mu sync.Mutex
 	sem := make(chan struct{}, 6)
 	var wg sync.WaitGroup
+	// the apply cases (no goroutines of the library involved) share one child process
+	var applyIdx []int
+	for i, line := range lines {
+		if f := strings.Fields(line); len(f) >= 2 && f[1] == "apply" {
+			applyIdx = append(applyIdx, i)
+		}
+	}
+	if len(applyIdx) > 0 {
+		dir := filepath.Join(out, "case", "apply")
+		_ = os.MkdirAll(dir, 0755)
+		var b strings.Builder
+		for _, i := range applyIdx {
+			b.WriteString(lines[i] + "\n")
+		}
+		cf := filepath.Join(dir, "cases.txt")
+		_ = os.WriteFile(cf, []byte(b.String()), 0644)
+		cmd := exec.Command(exe, "run", "-tier", a.Tier, "-seed", fmt.Sprint(a.Seed), "-cases", cf, "-out", dir)
+		cmd.Dir = out
+		cmd.Env = append(os.Environ(), "C11_CHILD=1")
+		var errb strings.Builder
+		cmd.Stderr = &errb
+		if err := cmd.Run(); err != nil {
+			for _, i := range applyIdx {
+				results[i] = fmt.Sprintf("%s apply crashed\n", strings.Fields(lines[i])[0])
+			}
+			tail := errb.String()
+			if len(tail) > 300 {
+				tail = tail[len(tail)-300:]
+			}
+			st.Violation(strings.Fields(lines[applyIdx[0]])[0], "apply cases: child process failed: "+err.Error()+" "+tail)
+		} else {
+			obsLines := map[string]string{}
+			if b, e := os.ReadFile(filepath.Join(dir, "impl.obs")); e == nil {
+				for _, l := range strings.Split(string(b), "\n") {
+					if f := strings.Fields(l); len(f) > 0 {
+						obsLines[f[0]] = l + "\n"
+					}
+				}
+			}
+			for _, i := range applyIdx {
+				results[i] = obsLines[strings.Fields(lines[i])[0]]
+			}
+			var cs vh.Stats
+			if b, e := os.ReadFile(filepath.Join(dir, "stats.json")); e == nil && json.Unmarshal(b, &cs) == nil {
+				st.Evaluations += cs.Evaluations
+				st.DistinctNontrivial += cs.DistinctNontrivial
+				for k, v := range cs.Distribution {
+					st.Distribution[k] += v
+				}
+				st.MonitorViolations = append(st.MonitorViolations, cs.MonitorViolations...)
+			}
+		}
+	}
 	for i, line := range lines {
 		hdr := strings.Fields(line)
-		if len(hdr) < 2 {
+		if len(hdr) < 2 || hdr[1] == "apply" {
 			continue
 		}
 		id := hdr[0]
@@ -1504,9 +1734,14 @@ func runParent(a vh.Args) {
 			_ = os.MkdirAll(dir, 0755)
 			cf := filepath.Join(dir, "cases.txt")
 			_ = os.WriteFile(cf, []byte(line+"\n"), 0644)
-			cmd := exec.Command(exe, "run", "-tier", a.Tier, "-seed", fmt.Sprint(a.Seed), "-cases", cf, "-out", dir)
+			cmd := exec.Command(liveExe, "run", "-tier", a.Tier, "-seed", fmt.Sprint(a.Seed), "-cases", cf, "-out", dir)
 			cmd.Dir = out
 			cmd.Env = append(os.Environ(), "C11_CHILD=1")
+			racePath := ""
+			if raceDir != "" {
+				racePath = filepath.Join(raceDir, fmt.Sprintf("r%d", i))
+				cmd.Env = append(cmd.Env, "GORACE=log_path="+racePath+" halt_on_error=0 exitcode=0")
+			}
 			var errb strings.Builder
 			cmd.Stderr = &errb
 			done := make(chan error, 1)
@@ -1524,6 +1759,17 @@ func runParent(a vh.Args) {
 			}
 			mu.Lock()
 			defer mu.Unlock()
+			if racePath != "" {
+				smRace, other := raceReports(racePath)
+				if other > 0 {
+					st.Count("race-reports-not-involving-the-state-machine")
+				}
+				if smRace != "" {
+					st.Violation(id, "data race on the user state machine (two calls the library must keep apart ran unsynchronised): "+smRace)
+					st.Count("race-on-state-machine")
+				}
+				st.Count("cases-under-race-detector")
+			}
 			if err != nil {
 				msg := "child process failed: " + err.Error()
 				for _, l := range strings.Split(errb.String(), "\n") {
@@ -1585,6 +1831,65 @@ func runParent(a vh.Args) {
 	_ = os.RemoveAll(filepath.Join(out, "case"))
 }
 
+// buildRaceExe builds this package with -race next to the running binary (<B>/.work/bin), from
+// the harness module of the same build directory <B>
+func buildRaceExe(exe string) (string, error) {
+	b := filepath.Dir(filepath.Dir(filepath.Dir(exe)))
+	h := filepath.Join(b, "harness")
+	if _, err := os.Stat(filepath.Join(h, "go.mod")); err != nil {
+		return "", err
+	}
+	rexe := filepath.Join(filepath.Dir(exe), "c11-race")
+	cmd := exec.Command("go", "build", "-race", "-tags", "verif", "-o", rexe, "./cmd/c11")
+	cmd.Dir = h
+	cmd.Env = append(os.Environ(), "CGO_ENABLED=1", "GOFLAGS=-mod=mod", "GOPROXY=off", "GOSUMDB=off", "GOTOOLCHAIN=local")
+	if outb, err := cmd.CombinedOutput(); err != nil {
+		t := string(outb)
+		if len(t) > 300 {
+			t = t[len(t)-300:]
+		}
+		return "", fmt.Errorf("%v: %s", err, t)
+	}
+	return rexe, nil
+}
+
+// raceReports reads the race detector's log files of one child: the first report whose stacks
+// go through a method of the instrumented state machines, and how many others there are
+func raceReports(prefix string) (string, int) {
+	files, _ := filepath.Glob(prefix + ".*")
+	first, other := "", 0
+	for _, f := range files {
+		b, err := os.ReadFile(f)
+		if err != nil {
+			continue
+		}
+		for _, rep := range strings.Split(string(b), "==================") {
+			if !strings.Contains(rep, "DATA RACE") {
+				continue
+			}
+			if strings.Contains(rep, "main.(*core).") || strings.Contains(rep, "main.(*plainSM).") ||
+				strings.Contains(rep, "main.(*concSM).") || strings.Contains(rep, "main.(*diskSM).") {
+				if first == "" {
+					var fns []string
+					for _, l := range strings.Split(rep, "\n") {
+						l = strings.TrimSpace(l)
+						if strings.HasPrefix(l, "main.(*") {
+							fns = append(fns, strings.SplitN(l, "(", 3)[0]+"("+strings.SplitN(strings.SplitN(l, "(", 3)[1], ")", 2)[0]+")"+strings.SplitN(strings.SplitN(l, ")", 2)[1], "(", 2)[0])
+						}
+					}
+					first = strings.Join(fns, " / ")
+					if len(first) > 200 {
+						first = first[:200]
+					}
+				}
+			} else {
+				other++
+			}
+		}
+	}
+	return first, other
+}
+
 func runCases(a vh.Args) {
 	st := vh.NewStats("live cases in which at least two user-state-machine calls of different goroutines were in progress at the same time or a stop/restart/close happened; apply cases in which an entry was dropped or turned into a no-op")
 	obs := vh.Create(filepath.Join(a.Out, "impl.obs"))
@@ -1628,7 +1933,12 @@ func runCases(a vh.Args) {
 				if c.snapw == 0 {
 					c.snapw = 2
 				}
+				c.ecomp = field(hdr, "ecomp", "0") == "1"
+				c.scomp = field(hdr, "scomp", "0") == "1"
+				c.lag = field(hdr, "lag", "0") == "1"
+				c.sess = field(hdr, "sess", "0") == "1"
 				l := &live{c: c, r: newRecorder(seed), st: vh.NewStats("")}
+				l.r.lag = c.lag
 				if c.logPath != "" {
 					l.r.openLog(c.logPath)
 				}
